@@ -812,6 +812,19 @@ class AsyncFIXConnection:
                 await self._state_set(ConnectionState.LOGON_INITIAL_RECV)
                 self._connection_role = ConnectionRole.ACCEPTOR
 
+            if (
+                FTag.MsgSeqNum in msg
+                and int(msg[FTag.MsgSeqNum]) < self._session.next_num_in
+                and (
+                    msg.msg_type != FMsg.SEQUENCERESET
+                    or msg.get(FTag.GapFillFlag, "N") == "Y"
+                )
+            ):
+                # Already processed message resent by peer (only SequenceReset in
+                #  Reset mode ignores its MsgSeqNum), must not be processed twice
+                self.log.debug(f"_process_message: skipped duplicate msg: {msg}")
+                return
+
             if msg.msg_type == FMsg.LOGON:
                 await self._process_logon(msg)
             elif msg.msg_type == FMsg.SEQUENCERESET:
